@@ -21,8 +21,8 @@ def check_prog(ctx, r, prog, n):
     canon = Canon(r, prog)
     pn = prog["name"]
     for h in handlers(prog):
-        if not h["safe"] or h["kind"] not in ("exec", "query"):
-            continue
+        if not h["safe"] or h["kind"] not in ("exec", "query") or h.get("resp_literal"):
+            continue  # resp_literal: the declared response type differs from what the handler returns (C16 only)
         part = part_by_id(prog, h["part"])
         targets = ["c"] if part["id"] == "c" else ["c", "dyn"]
         for it in range(n):
